@@ -963,6 +963,12 @@ class PyExec:
         return vals
 
     def call_name(self, st, name, n):
+        if name in ("any", "all") and len(n.args) == 1 and isinstance(n.args[0], ast.GeneratorExp) and not n.keywords:
+            # any(<generator>) / all(<generator>): an ARBITRARY boolean - its iteration is not modelled, both answers are explored
+            # (sound for what follows; stated assumption: the generator's element expressions have no side effects)
+            self.assumptions.add("any(<generator>) / all(<generator>) is an arbitrary boolean; its element expressions are assumed free of side effects")
+            self.dropped.add("the iteration inside %s(<generator>) (line %d): replaced by an arbitrary boolean" % (name, n.lineno))
+            return PBool(self.fresh(name + "_of_generator", z3.BoolSort()))
         if name in self.callees:
             return self.apply_callee(st, self.callees[name], self.args(st, n, self.callees[name].params, getattr(self.callees[name], "none_defaults", False)), n)
         def _cls_name(x):
@@ -1045,7 +1051,8 @@ class PyExec:
         dotted = dotted_name(f)
         if dotted and dotted in self.callees and dotted.split(".")[0] not in st.vars:
             # module-level function reached through its module (hashlib.sha256, os.path.splitext): by contract
-            return self.apply_callee(st, self.callees[dotted], self.args(st, n, self.callees[dotted].params), n)
+            return self.apply_callee(st, self.callees[dotted], self.args(st, n, self.callees[dotted].params,
+                                                                          getattr(self.callees[dotted], "none_defaults", False)), n)
         if meth == "join" and isinstance(recv_node, ast.Constant) and isinstance(recv_node.value, str):
             a = self.args(st, n)
             if isinstance(a[0], PRef) and a[0].cls == "list" and self.opt.get("elem_kind", {}).get("list") == "slice":
